@@ -301,7 +301,19 @@ func runC10(r *h.Run) {
 	inPanic := no
 	for li, l := range lines {
 		if len(l.Text) >= effBuf {
-			continue // longer than the buffer: only the verbatim copy is checked, no state change
+			// longer than the buffer: only the verbatim copy is checked, no state
+			// change. Skip the records of its pieces (all made of one letter), and
+			// the empty tail piece a line of exactly k x bufsize bytes produces, so
+			// that they are not mistaken for the records of later lines.
+			if l.Class == "long" && len(l.Text) > 0 {
+				for ri < len(recs) && recs[ri].Msg != "" && strings.Trim(recs[ri].Msg, l.Text[:1]) == "" {
+					ri++
+				}
+				if len(l.Text)%effBuf == 0 && ri < len(recs) && recs[ri].Msg == "" {
+					ri++
+				}
+			}
+			continue
 		}
 		wantLevel := l.Level
 		switch l.Class {
